@@ -16,15 +16,41 @@ from __future__ import annotations
 from typing import TYPE_CHECKING
 
 from vyper import ast as vy_ast
-from vyper.exceptions import CompilerPanic, InvalidLiteral, TypeMismatch
+from vyper.exceptions import CompilerPanic, InvalidLiteral, InvalidType, TypeMismatch
 from vyper.semantics.types import AddressT, BoolT, BytesM_T, BytesT, DecimalT, IntegerT, StringT
 from vyper.semantics.types.bytestrings import _BytestringT
-from vyper.semantics.types.shortcuts import UINT160_T, UINT256_T
+from vyper.semantics.types.shortcuts import INT256_T, UINT160_T, UINT256_T
 from vyper.semantics.types.user import FlagT
 from vyper.venom.basicblock import IRLiteral, IROperand, IRVariable
 
 if TYPE_CHECKING:
     from vyper.codegen_venom.context import VenomCodegenContext
+
+
+# Input types each conversion target accepts.  Must stay identical to the
+# `@_input_types(...)` decorators in vyper/builtins/_convert.py: semantic
+# analysis does not validate convert() pairs, the (legacy) codegen does.
+_ALLOWED_INPUT_TYPES = {
+    "bool": (IntegerT, DecimalT, BytesM_T, AddressT, BoolT, BytesT, StringT),
+    "int": (IntegerT, DecimalT, BytesM_T, AddressT, BoolT, FlagT, BytesT),
+    "decimal": (IntegerT, BoolT, BytesM_T, BytesT),
+    "bytes_m": (IntegerT, DecimalT, BytesM_T, AddressT, BytesT, BoolT, FlagT),
+    "address": (BytesM_T, IntegerT, BytesT),
+    "bytes": (StringT, BytesT),
+    "string": (BytesT, StringT),
+    "flag": (IntegerT,),
+}
+
+
+def _check_input_type(in_t, out_t, target: str, arg_node: vy_ast.VyperNode) -> None:
+    """Reject conversions the language does not define (same errors as legacy)."""
+    if not isinstance(in_t, _ALLOWED_INPUT_TYPES[target]):
+        raise TypeMismatch(f"Can't convert {in_t} to {out_t}", arg_node)
+
+    # user safety: disallow convert from type to itself
+    # (allowance of [u]int256 as in legacy, for literals)
+    if in_t == out_t and in_t not in (UINT256_T, INT256_T):
+        raise InvalidType(f"value and target are both {out_t}", arg_node)
 
 
 def lower_convert(node: vy_ast.Call, ctx: VenomCodegenContext) -> IROperand:
@@ -48,20 +74,30 @@ def lower_convert(node: vy_ast.Call, ctx: VenomCodegenContext) -> IROperand:
 
     # Dispatch based on output type
     if out_t == BoolT():
+        _check_input_type(in_t, out_t, "bool", arg_node)
         return _to_bool(arg, in_t, out_t, arg_node, ctx)
     elif out_t == AddressT():
+        _check_input_type(in_t, out_t, "address", arg_node)
         return _to_address(arg, in_t, arg_node, ctx)
     elif isinstance(out_t, IntegerT):
+        _check_input_type(in_t, out_t, "int", arg_node)
         return _to_int(arg, in_t, out_t, arg_node, ctx)
     elif isinstance(out_t, DecimalT):
+        _check_input_type(in_t, out_t, "decimal", arg_node)
         return _to_decimal(arg, in_t, out_t, arg_node, ctx)
     elif isinstance(out_t, BytesM_T):
+        _check_input_type(in_t, out_t, "bytes_m", arg_node)
         return _to_bytes_m(arg, in_t, out_t, arg_node, ctx)
     elif isinstance(out_t, BytesT):
+        _check_input_type(in_t, out_t, "bytes", arg_node)
         return _to_bytes(arg, in_t, out_t, arg_node, ctx)
     elif isinstance(out_t, StringT):
+        _check_input_type(in_t, out_t, "string", arg_node)
         return _to_string(arg, in_t, out_t, arg_node, ctx)
     elif isinstance(out_t, FlagT):
+        _check_input_type(in_t, out_t, "flag", arg_node)
+        if in_t != UINT256_T:
+            raise TypeMismatch(f"Can't convert {in_t} to {out_t}", arg_node)
         return _to_flag(arg, in_t, out_t, ctx)
     else:  # pragma: nocover
         raise CompilerPanic(f"Unsupported conversion target: {out_t}")
@@ -225,6 +261,8 @@ def _to_int(
     # From flag: treat as uint256, use int-to-int rules
     if isinstance(in_t, FlagT):
         # Flags can only convert to uint256
+        if out_t != UINT256_T:
+            raise TypeMismatch(f"Can't convert {in_t} to {out_t}", arg_node)
         return _int_to_int(val, UINT256_T, out_t, ctx)
 
     # From address: treat as uint160
@@ -345,6 +383,10 @@ def _to_bytes_m(
             raise TypeMismatch(f"Can't convert {in_t} to {out_t}", arg_node)
     elif isinstance(in_t, DecimalT):
         if out_t.m_bits < in_t.bits:
+            raise TypeMismatch(f"Can't convert {in_t} to {out_t}", arg_node)
+    elif isinstance(in_t, FlagT):
+        # a flag is a full word: only bytes32 can hold it
+        if out_t.m_bits != 256:
             raise TypeMismatch(f"Can't convert {in_t} to {out_t}", arg_node)
 
     # From integer/address/decimal: left-shift to align
